@@ -463,6 +463,29 @@ class Ledger:
         self.features.add("err-cancelling-commodities")
         self.ended = True
 
+    def end_cancel_leftover(self):
+        """`-100 A / +100 A / -5 B`: one commodity cancels exactly, a (negative or positive) amount of another is left over:
+        the residual is a pair with a ZERO entry; error text and exit status must not depend on which entry comes first"""
+        r = self.rng
+        c1, c2 = r.sample(self.comms, 2)
+        v1, s1 = amt(r, c1, neg=False)
+        v2, s2 = amt(r, c2, neg=r.random() < 0.7)
+        a, b, c = (r.choice(self.accounts) for _ in range(3))
+        lines = [posting(a, atext(r, -v1, s1, c1)), posting(b, atext(r, v1, s1, c1)), posting(c, atext(r, v2, s2, c2))]
+        r.shuffle(lines)
+        self.txn(lines)
+        self.features.add("err-cancel-leftover")
+        self.ended = True
+
+    def zero_total(self):
+        """a zero quantity with a total cost (`0 A @@ 5 B`): accepted; the zero price is ignored (with a log line at some level)"""
+        r = self.rng
+        c1, c2 = r.sample(self.comms, 2)
+        v, sc = amt(r, c2, neg=False)
+        a, b = r.sample(self.accounts, 2)
+        self.txn([posting(a, "0 %s @@ %s" % (c1, atext(r, v, sc, c2))), posting(b, atext(r, -v, sc, c2))])
+        self.features.add("zero-total-cost")
+
     def end_bad_exchange(self):
         """`@ 0 C`, `@` in the amount's own commodity, a cost on a commodity-less zero, division by zero"""
         r = self.rng
@@ -502,7 +525,7 @@ class Ledger:
         self.multi_deposit()
         n = r.randint(3, 14)
         kinds = [(self.multi_deposit, 3), (self.transfer, 3), (self.implied_exchange, 3), (self.costed, 3), (self.rate_only, 1),
-                 (self.assertion_ok, 1), (self.expr_amount, 1), (self.alias_transfer, 2)]
+                 (self.assertion_ok, 1), (self.expr_amount, 1), (self.alias_transfer, 2), (self.zero_total, 1)]
         bag = [k for k, w in kinds for _ in range(w)]
         for _ in range(n):
             r.choice(bag)()
@@ -510,7 +533,7 @@ class Ledger:
             r.choice([self.end_unbalanced_multi, self.end_unbalanced_multi, self.end_unbalanced_same_sign,
                       self.end_assertion_fail, self.end_assertion_fail, self.end_zero_assign_multi,
                       self.end_posting_amount_required, self.end_undeducible, self.end_cancelling_commodities,
-                      self.end_bad_exchange, self.end_alias_conflict])()
+                      self.end_bad_exchange, self.end_alias_conflict, self.end_cancel_leftover, self.end_cancel_leftover])()
         return head
 
 
@@ -555,6 +578,10 @@ def price_db(rng, led, target):
         for c in others[:max(0, len(others) - r.randint(2, 3))]:
             lines.append("P %s %s %s %s" % (date, c, fmt_num(r, r.randint(2, 900), 2), target))
         led.features.add("missing-rates")
+    if r.random() < 0.15 and others:
+        # a zero quote: ignored by the price repository (noted in the log at some level)
+        lines.append("P %s %s 0 %s" % (date, r.choice(others), r.choice([target] + hubs[:1])))
+        led.features.add("zero-quote")
     if r.random() < 0.1:
         lines.append("P %s %s 1 %s" % (date, target, target))      # self rate: logs an error line (timestamped) on stderr
         led.features.add("self-rate-log")
@@ -749,7 +776,7 @@ def gen_csv_case(rng, idx, known):
     r.shuffle(fields)
     rules = []
     for _ in range(r.randint(2, 7)):
-        kind = r.choice(["payee", "payee-cap", "cat", "and2", "and3", "or"])
+        kind = r.choice(["payee", "payee-cap", "cat", "and2", "and3", "or", "cat-cap", "sym-cap"])
         p = r.choice(["Migros", "FooBar", "cashback", "ATM", "ACME", "Super", "Wire", "shop"])
         if kind == "payee":
             rule = {"matcher": [("payee", p)], "account": "Expenses:" + p}
@@ -759,6 +786,12 @@ def gen_csv_case(rng, idx, known):
             rule = {"matcher": [("category", r.choice(CATS))], "account": "Income:Misc", "pending": r.random() < 0.5}
         elif kind == "and2":
             rule = {"matcher": [("category", r.choice(CATS)), ("payee", r"(?P<payee>%s.*)" % p)], "account": "Expenses:And2"}
+        elif kind == "cat-cap":
+            # a named group on a column whose CSV matcher does not capture: the payee pattern must see the record's payee
+            # whatever the order of the two fields (deterministic today; not of class F14)
+            rule = {"matcher": [("payee", p), ("category", r"(?P<payee>.+?)( \d{4})?$")], "account": "Expenses:CatCap"}
+        elif kind == "sym-cap":
+            rule = {"matcher": [("payee", p), ("secondary_commodity", r"(?P<payee>[A-Z]*)")], "account": "Expenses:SymCap"}
         elif kind == "and3":
             rule = {"matcher": [("secondary_commodity", r.choice(["VYM", "AAPL", ".*"])), ("category", ".*"),
                                 ("payee", r"(?P<code>\d+)?.*%s" % p)], "account": "Assets:Broker", "payee": "Broker " + p}
